@@ -378,11 +378,90 @@ def gen_cases(rng, tier):
         n = rng.choice([2, 3, 4, 5, 6, 7, 8])
         pts = _rand_float_points(rng, n)
         cases.append({"space": {"kind": "vorf", "pts": pts}, "ops": [["build"]] + _queries(rng, len(pts), 3, rng.randint(1, 3))})
+    # 5. SCALE stream
+    cases += _scale_cases(rng, tier)
+    if not quick:
+        for _ in range(3):
+            cases += _scale_cases(rng, tier)
     # cells / agents whose truth value is False and whose len() is 0 (nothing in the statement depends on it)
     for c in cases:
         if rng.random() < 0.3:
             c["space"]["falsy"] = True
     return cases
+
+
+_VOR40 = [[60, 23], [74, 38], [25, 52], [33, 68], [31, 81], [63, 45], [53, 67], [78, 27], [39, 69], [90, 42], [66, 9], [26, 88],
+          [59, 90], [83, 18], [68, 27], [52, 7], [44, 80], [15, 17], [41, 49], [42, 44], [54, 53], [27, 52], [29, 26], [5, 28],
+          [2, 33], [64, 40], [72, 90], [53, 78], [14, 42], [59, 46], [76, 80], [18, 33], [49, 79], [90, 59], [22, 0], [44, 29],
+          [10, 25], [36, 30], [88, 59], [61, 67]]   # fixed, verified: no three collinear, no four cocircular
+
+
+def _order_patterns(rng, c, nb, radii):
+    """query orders that reuse caches: wide then narrow, narrow then wide, neighbour then self, the first query again"""
+    rs = sorted(set(radii))
+    qs = []
+    order = rng.choice(["wide-narrow", "narrow-wide", "mixed"])
+    seq = list(reversed(rs)) if order == "wide-narrow" else (rs if order == "narrow-wide" else rng.sample(rs, len(rs)))
+    for r in seq:
+        first = rng.random() < 0.5
+        qs.append(["nbhd", rng.randrange(3), c, r, first])
+        if rng.random() < 0.6:
+            qs.append(["nbhd", rng.randrange(3), c, r, not first])
+    r = rng.choice(rs)
+    qs += [["nbhd", 0, nb, r, False], ["nbhd", 0, c, r, False], ["nbhd", 1, c, r, True], ["nbhd", 2, nb, r, True]]
+    qs.append(list(qs[0]))
+    if rng.random() < 0.5:
+        qs += [["place", 1, nb], ["agents", 0, c, rs[0], False], ["place", 1, c], ["agents", 0, c, rs[0], True]]
+    return qs
+
+
+def _scale_cases(rng, tier, broken=False):
+    """SCALE stream (harness/SCALE_NOTE.md): spaces with hundreds to thousands of cells, radii crossing
+    8/16/32/48/49/64/100/128/256/257 and the diameter, cache-reusing query orders, degenerate tori with one long axis.
+    Implementation + oracle (own BFS, metric ball, geometry) only - except the medium ones at the end, which also run
+    through the Gallina model."""
+    def grid(kind, dims, torus, centre, radii):
+        cells = _cells_of(dims)
+        c = cells.index(tuple(centre))
+        nbc = list(centre)
+        ax = max(range(len(dims)), key=lambda a: dims[a])
+        nbc[ax] = (nbc[ax] + 1) % dims[ax]
+        return {"space": {"kind": kind, "dims": list(dims), "torus": torus}, "oracle_only": True,
+                "ops": [["build"]] + _order_patterns(rng, c, cells.index(tuple(nbc)), radii)}
+
+    def net(n, edges, c, radii, kind="net"):
+        return {"space": {"kind": kind, "n": n, "edges": edges}, "oracle_only": True,
+                "ops": [["build"]] + _order_patterns(rng, c, (c + 1) % n, radii)}
+
+    pick = lambda xs, k: sorted(rng.sample(xs, min(k, len(xs))))   # noqa: E731
+    out = []
+    strip_r = [8, 16, 32, 48, 49, 64, 100, 128, 129, 255, 256, 257, 310]
+    out.append(grid(rng.choice(["vn", "moore"]), (300,), False, (rng.choice([0, 150, 299]),), pick(strip_r, 6) + [49]))
+    out.append(grid("moore", (1, 200), True, (0, rng.randrange(200)), pick([48, 49, 64, 99, 100, 101, 128], 4)))
+    out.append(grid("vn", (2, 150), True, (rng.randrange(2), rng.randrange(150)), pick([16, 48, 49, 64, 75, 76, 77], 4)))
+    out.append(grid("moore", (40, 40), rng.random() < 0.5, (rng.randrange(40), rng.randrange(40)), pick([7, 8, 9, 10], 2)))
+    out.append(grid("hex", (30, 30), False, (rng.randrange(30), rng.randrange(30)), pick([8, 11, 12, 13], 2)))
+    path = [[i, i + 1] for i in range(399)]
+    out.append(net(400, path, rng.choice([0, 200, 399]), pick([8, 16, 32, 48, 49, 50, 64, 97, 98, 100, 128, 256, 257], 5) + [49]))
+    if tier != "quick" or broken:
+        out.append(grid("vn", (40, 40), True, (rng.randrange(40), rng.randrange(40)), pick([16, 17, 18, 21], 2)))
+        out.append(grid("vn", (12, 12, 12), rng.random() < 0.5, (rng.randrange(12), 5, rng.randrange(12)), pick([4, 5, 6], 2)))
+        out.append(grid("moore", (12, 12, 12), False, (6, rng.randrange(12), 6), [2, 3]))
+        out.append(grid("hex", (30, 30), True, (rng.randrange(30), rng.randrange(30)), pick([12, 15, 16], 2)))
+        out.append(grid("vn", (300, 1), True, (rng.randrange(300), 0), pick(strip_r[:10], 5) + [150, 151]))
+        cyc = [[i, (i + 1) % 300] for i in range(300)]
+        out.append(net(300, cyc, rng.randrange(300), pick([48, 49, 64, 100, 128, 149, 150, 151], 5)))
+        tree = [[rng.randrange(max(0, i - 3), i), i] for i in range(1, 500)]
+        out.append(net(500, tree, rng.randrange(500), pick([8, 16, 32, 48, 49, 64, 100, 128], 4)))
+        out.append(net(300, [[i, i + 1] for i in range(299)], 0, pick([48, 49, 64, 128, 257, 299, 300], 4), kind="dnet"))
+        out.append({"space": {"kind": "vor", "pts": _VOR40}, "oracle_only": True,
+                    "ops": [["build"], ["cert"]] + _order_patterns(rng, rng.randrange(40), rng.randrange(40), [1, 2, 3, 5, 8])})
+    # medium ones THROUGH the model as well (the memo of the Gallina model is an association list: keep entries < ~2000)
+    out.append({"space": {"kind": "vn", "dims": [40], "torus": rng.random() < 0.5},
+                "ops": [["build"]] + _order_patterns(rng, rng.randrange(40), rng.randrange(40), pick([7, 8, 9, 15, 16, 17, 31, 32, 33, 41], 4))})
+    out.append({"space": {"kind": "net", "n": 30, "edges": [[i, (i + 1) % 30] for i in range(30)]},
+                "ops": [["build"]] + _order_patterns(rng, rng.randrange(30), rng.randrange(30), pick([7, 8, 9, 14, 15, 16, 17], 3))})
+    return out
 
 
 def _rand_float_points(rng, n):
@@ -412,6 +491,8 @@ def enumerate_cases(tier, broken=False):
     {1..3}^{1..3} ({1..4}^{1..4} up to 64 cells when thorough) x class x torus, every cell x radius <= max+1 x flags;
     every hex shape <= 5x5; every simple graph on <= 4 nodes."""
     rng = _random.Random(4242)
+    for _ in range(6 if broken else 2):
+        yield from _scale_cases(rng, tier, broken=True)
     vecs = _dim_vectors(4, 4, 64) if tier == "thorough" else _dim_vectors(3, 3, 27)
     for dims in vecs:
         for kind in ("moore", "vn"):
